@@ -28,6 +28,12 @@ def mk_case(lines, recs, cfg, form="file", checklines=10):
             "config": cfg.to_json(), "form": form, "checklines": checklines}
 
 
+def same_as_line(row, e):
+    """the stored row is the file's gene / transcript line: its extent, its source column, its own attribute"""
+    return ((row["start"], row["end"]) == (e["start"], e["end"]) and row["source"] == e.get("source", "src")
+            and row["featuretype"] == e["ftype"] and row["attributes"].get("note") == ([e["note"]] if "note" in e else None))
+
+
 def oracle(recs, db, cfg, res, case):
     disG, disT, sub, gkey, tkey = cfg.disG, cfg.disT, cfg.sub, cfg.gkey, cfg.tkey
     rows = dbside.rows_of(db)
@@ -53,11 +59,11 @@ def oracle(recs, db, cfg, res, case):
         got = byid.get(t, [])
         if t in explicit_t:
             e = explicit_t[t]
-            if len(got) != 1 or got[0]["source"] == "gffutils_derived" or (got[0]["start"], got[0]["end"]) != (e["start"], e["end"]):
+            if len(got) != 1 or not same_as_line(got[0], e):
                 common.fail(res, case, "explicit_transcript_not_single",
                             "an explicit transcript line is not the single feature under its id",
                             id=t, observed=[(g["featuretype"], g["start"], g["end"], g["source"]) for g in got],
-                            expected=("transcript", e["start"], e["end"], "src"))
+                            expected=("transcript", e["start"], e["end"], e.get("source", "src"), e.get("note")))
             continue
         if disT:
             if got:
@@ -87,11 +93,11 @@ def oracle(recs, db, cfg, res, case):
         got = byid.get(g, [])
         if g in explicit_g:
             e = explicit_g[g]
-            if len(got) != 1 or got[0]["source"] == "gffutils_derived" or (got[0]["start"], got[0]["end"]) != (e["start"], e["end"]):
+            if len(got) != 1 or not same_as_line(got[0], e):
                 common.fail(res, case, "explicit_gene_not_single",
                             "an explicit gene line is not the single feature under its id",
                             id=g, observed=[(x["featuretype"], x["start"], x["end"], x["source"]) for x in got],
-                            expected=("gene", e["start"], e["end"], "src"))
+                            expected=("gene", e["start"], e["end"], e.get("source", "src"), e.get("note")))
             continue
         if disG:
             if got:
@@ -107,8 +113,10 @@ def oracle(recs, db, cfg, res, case):
                         "derived gene does not span all exons of the gene", id=g, expected=want,
                         observed=[(x["featuretype"], x["start"], x["end"], x["seqid"], x["strand"]) for x in got])
     # nothing derived beyond these
+    file_lines_derived_source = {(x["gene"] if x["ftype"] == "gene" else x["transcript"]) for x in recs
+                                 if x.get("source") == "gffutils_derived"}
     for x in rows:
-        if x["source"] == "gffutils_derived":
+        if x["source"] == "gffutils_derived" and str(x["id"]) not in file_lines_derived_source:
             k = str(x["id"])
             ok = (x["featuretype"] == "transcript" and k in tx and not disT) or \
                  (x["featuretype"] == "gene" and k in gx and not disG)
